@@ -74,6 +74,8 @@ type lcExp struct {
 	LastSend string   `json:"lastsend"`
 	Out      []string `json:"out"`
 	NsBusy   bool     `json:"nsbusy"`
+	Fr       string   `json:"fr"`
+	LastSeq  string   `json:"lastseq"`
 }
 
 type lcStep struct {
@@ -406,6 +408,8 @@ type lcWorld struct {
 	prPtr     string
 	cbClosed  bool
 	flStable  int
+	frRes     string        // Flush inside the queue-full retry loop: idle | parked | err | ok | panic
+	seqRes    string        // writer call sequences on a shut-down session: none | ok | fault...
 	extra     []*Stream     // streams registered late through a staged window
 	lateGot   int           // streams handed to OnNewStream so far
 	nsEntered int32         // the event loop is inside OnNewStream of the first late stream
@@ -633,6 +637,7 @@ func (w *lcWorld) afterSetup() error {
 		w.rdRes[i] = "idle"
 	}
 	w.flRes, w.accRes, w.lastOpen, w.lastSend = "idle", "idle", "none", "none"
+	w.frRes, w.seqRes = "idle", "none"
 	w.svPtr = fmt.Sprintf("%p", w.sv)
 	if w.pr != nil {
 		w.prPtr = fmt.Sprintf("%p", w.pr)
@@ -778,6 +783,9 @@ func (w *lcWorld) observe() *lcExp {
 	copy(x.Rd, w.rdRes)
 	x.Fl, x.Acc, x.LastOpen, x.LastSend = w.flRes, w.accRes, w.lastOpen, w.lastSend
 	w.mu.Unlock()
+	w.mu.Lock()
+	x.Fr, x.LastSeq = w.frRes, w.seqRes
+	w.mu.Unlock()
 	if x.Fl == "parked" && x.Shutdown == 0 {
 		// "parked" only once the send loop really waits for the socket to drain: it holds `writing`, the socket is not
 		// writable and the wake-up token has been consumed (otherwise the caller is still copying / still writing chunks)
@@ -836,6 +844,10 @@ func (w *lcWorld) collect() {
 			w.flRes = c.res
 		case name == "acc":
 			w.accRes = c.res
+		case name == "fr":
+			w.frRes = c.res
+		case name == "q":
+			w.seqRes = c.res
 		case name == "w":
 			if c.res != "" {
 				w.lastSend = c.res
@@ -997,6 +1009,112 @@ func (w *lcWorld) startFlush() {
 		}
 		return "ok"
 	})
+}
+
+// D9: the peer is stalled (nobody turns its loop), the user fills the send queue and one more Flush enters the queue-full
+// retry loop (stats.queueFullErrorCount tells when)
+func (w *lcWorld) startRetryFlush() string {
+	st := w.svStr[w.sc.Streams]
+	var q *queue
+	lcLocked(w.sv, func() {
+		if w.sv.queueManager != nil {
+			q = w.sv.queueManager.sendQueue
+		}
+	})
+	if q == nil || w.sv.IsClosed() {
+		return "session already closed"
+	}
+	for free := q.cap - q.size(); free > 0; free-- {
+		st.BufferWriter().WriteString("q")
+		if err := st.Flush(false); err != nil {
+			return "filling the queue: " + err.Error()
+		}
+	}
+	before := atomic.LoadUint64(&w.sv.stats.queueFullErrorCount)
+	w.mu.Lock()
+	w.frRes = "starting"
+	w.mu.Unlock()
+	w.goCall("fr", func() string {
+		st.BufferWriter().WriteString("r")
+		err := st.Flush(false)
+		if err == nil {
+			return "ok"
+		}
+		return "err"
+	})
+	for d := time.Now().Add(lcWait); time.Now().Before(d); {
+		if atomic.LoadUint64(&w.sv.stats.queueFullErrorCount) > before {
+			w.mu.Lock()
+			if w.frRes == "starting" {
+				w.frRes = "parked"
+			}
+			w.mu.Unlock()
+			return ""
+		}
+		time.Sleep(100 * time.Microsecond)
+	}
+	return "the Flush did not enter the queue-full retry loop"
+}
+
+// D10: multi-step writer call sequences on a stream of a shut-down session, each followed by Flush (which must fail).
+// Every allocation path of the BufferWriter has to stay away from the shared memory (unmapped after the teardown).
+var lcWriterSeqs = []struct {
+	name string
+	run  func(bw BufferWriter) error
+}{
+	{"Reserve(3000) Reserve(3000)", func(bw BufferWriter) error { bw.Reserve(3000); _, err := bw.Reserve(3000); return err }},
+	{"Reserve(5000) Reserve(5000)", func(bw BufferWriter) error { bw.Reserve(5000); _, err := bw.Reserve(5000); return err }},
+	{"Reserve(4096) Reserve(1)", func(bw BufferWriter) error { bw.Reserve(4096); _, err := bw.Reserve(1); return err }},
+	{"WriteBytes(100) Reserve(4090)", func(bw BufferWriter) error { bw.WriteBytes(make([]byte, 100)); _, err := bw.Reserve(4090); return err }},
+	{"Reserve(3000) WriteString(2000)", func(bw BufferWriter) error { bw.Reserve(3000); return bw.WriteString(strings.Repeat("s", 2000)) }},
+	{"WriteBytes(10000)", func(bw BufferWriter) error { _, err := bw.WriteBytes(make([]byte, 10000)); return err }},
+	{"WriteString(4096) WriteByte WriteByte", func(bw BufferWriter) error {
+		bw.WriteString(strings.Repeat("b", 4096))
+		bw.WriteByte('x')
+		return bw.WriteByte('y')
+	}},
+	{"Reserve(100) WriteBytes(5000) Reserve(3000) Reserve(3000)", func(bw BufferWriter) error {
+		bw.Reserve(100)
+		bw.WriteBytes(make([]byte, 5000))
+		bw.Reserve(3000)
+		_, err := bw.Reserve(3000)
+		return err
+	}},
+}
+
+// runs every sequence on the stream; returns "" or what went wrong ("<sequence>: Flush returned nil")
+func lcRunWriterSeqs(st *Stream, progress func(string)) string {
+	for _, q := range lcWriterSeqs {
+		if progress != nil {
+			progress(q.name)
+		}
+		q.run(st.BufferWriter())
+		if err := st.Flush(false); err == nil {
+			return q.name + ": the Flush after it returned nil on a closed session"
+		}
+	}
+	return ""
+}
+
+func (w *lcWorld) startWriteSeq(i int) {
+	st := w.svStr[i]
+	w.mu.Lock()
+	w.unflushed[i] = false
+	w.mu.Unlock()
+	cur := ""
+	c := w.goCall("q", func() string {
+		if r := lcRunWriterSeqs(st, func(n string) { cur = n }); r != "" {
+			return "bad:" + r
+		}
+		return "ok"
+	})
+	select {
+	case <-c.done:
+		if c.panicVal != "" {
+			c.panicVal = "writer sequence " + cur + " on a stream of a closed session: " + c.panicVal
+		}
+	case <-time.After(lcWait):
+	}
 }
 
 func (w *lcWorld) startSend(i int) {
@@ -1176,6 +1294,23 @@ func (w *lcWorld) stepManual(i int, st *lcStep) {
 		w.releaseCb(st.S - 1)
 	case "TryOpen":
 		w.tryOpen()
+	case "ParkRetryFlush":
+		if r := w.startRetryFlush(); r != "" {
+			w.res.Harness = "ParkRetryFlush: " + r
+		}
+	case "RetryExpire":
+		// the retry loop gives up by itself after its ten timers
+		w.mu.Lock()
+		c := w.calls["fr"]
+		w.mu.Unlock()
+		if c != nil {
+			select {
+			case <-c.done:
+			case <-time.After(lcWait):
+			}
+		}
+	case "WriteSeq":
+		w.startWriteSeq(st.S - 1)
 	default:
 		// internal step of a procedure that is already running on the real code
 	}
@@ -1240,6 +1375,11 @@ func (w *lcWorld) replayManual() {
 			w.violate("open-nil-nil", "OpenStream on a session whose IsClosed() is true returned (nil, nil)", i)
 		}
 		if w.unclassified() > 0 {
+			return
+		}
+		if idx < 0 && st.X.Fr == "parked" && w.observe().Fr == "err" {
+			// the queue-full retry loop (10 x 10 ms of real time) gave up before the replay got to the step that releases it
+			w.res.NdDiverged = true
 			return
 		}
 		if idx < 0 {
@@ -1392,6 +1532,9 @@ func (w *lcWorld) finish() {
 			// any error is a failure of the call; the text is only reported
 			_ = r
 		}
+	}
+	if w.frRes == "parked" || w.frRes == "starting" {
+		w.res.Violations = append(w.res.Violations, lcViolation{Kind: "pending-call-hangs", Detail: "a Flush waiting in its queue-full retry loop has not returned after the session was closed and torn down", Schedule: w.sc.Name, Step: step})
 	}
 	if w.flRes == "ok" {
 		w.res.Violations = append(w.res.Violations, lcViolation{Kind: "pending-call-succeeds", Detail: "a Flush blocked on a full socket returned nil although the connection died", Schedule: w.sc.Name, Step: step})
@@ -1559,6 +1702,22 @@ func (w *lcWorld) laterCalls(step int) {
 			w.violate("stream-left-open", fmt.Sprintf("stream id %d, registered by an OpenStream that overlapped Session.Close, after the teardown: state %d (1 = closed), close notification delivered: %v",
 				st.id, state, lcChanClosed(st.closeNotifyCh)), step)
 		}
+	}
+	for i := 0; i < w.sc.Streams; i++ {
+		st := w.stream(i)
+		if st == nil || w.isCb[i] {
+			continue
+		}
+		run(fmt.Sprintf("writer call sequences(stream %d)", i+1), func() (res string) {
+			cur := ""
+			defer func() {
+				if r := recover(); r != nil {
+					res = fmt.Sprintf("panic: in the sequence %q: %v", cur, r)
+				}
+			}()
+			return lcRunWriterSeqs(st, func(n string) { cur = n })
+		})
+		break
 	}
 	run("Session.Close again", func() string {
 		if err := w.sv.Close(); err != nil {
@@ -1903,6 +2062,9 @@ func (w *lcWorld) childWitness() {
 	case strings.Contains(out, "torn-down") && (strings.Contains(out, "unexpected fault address") || strings.Contains(out, "SIGSEGV")):
 		m := ""
 		for _, l := range strings.Split(out, "\n") {
+			if strings.HasPrefix(l, "seq ") {
+				m = "[during the writer call sequence " + l[4:] + "] "
+			}
 			if strings.Contains(l, "linkedBuffer") || strings.Contains(l, "allocShmBuffer") || strings.Contains(l, "fault address") ||
 				strings.Contains(l, "queue).put") || strings.Contains(l, "Stream).Flush") {
 				m += strings.TrimSpace(l) + " | "
@@ -1918,6 +2080,16 @@ func (w *lcWorld) childWitness() {
 			w.res.Violations = append(w.res.Violations, lcViolation{Kind: "fault", Known: "write-after-teardown-faults", Schedule: w.sc.Name,
 				Detail: "both ends closed and torn down, then Stream.BufferWriter().WriteString on a stream of that session: the process dies with " + m})
 		}
+		w.res.Conforming = true
+	case strings.Contains(out, "seq-bad"):
+		m := ""
+		for _, l := range strings.Split(out, "\n") {
+			if strings.HasPrefix(l, "seq-bad") {
+				m = l
+			}
+		}
+		w.res.Violations = append(w.res.Violations, lcViolation{Kind: "later-call-succeeds", Known: "flush-nil-after-close", Schedule: w.sc.Name,
+			Detail: "both ends closed and torn down, writer call sequence then Flush: " + m})
 		w.res.Conforming = true
 	case strings.Contains(out, "survived"):
 		w.res.Conforming = true
@@ -1994,6 +2166,9 @@ func lcChildWriteAfterTeardown(spec lcChildSpec) {
 			fmt.Println("flush does not return")
 		}
 		os.Exit(0)
+	}
+	if r := lcRunWriterSeqs(st, func(n string) { fmt.Println("seq", n) }); r != "" {
+		fmt.Println("seq-bad", r)
 	}
 	werr := st.BufferWriter().WriteString("z")
 	ferr := st.Flush(false)
@@ -2146,6 +2321,45 @@ func lcRunSchedule(sc *lcSchedule, mode, dir string, known map[string]bool) (res
 // staged interleavings inside Session.Close (gate mode, needs Session.Close instrumented)
 func (w *lcWorld) runGate() {
 	switch w.sc.Gate {
+	case "retry-flush-death", "retry-flush-close":
+		// regression case for the pending-call kind "flush-in-retry", staged so that it fits into the 100 ms of the retry loop:
+		// stalled peer, full send queue, one more Flush inside the retry loop, then the peer dies (or the user calls Close)
+		// and the loop is turned until the teardown lambda has run - all on this goroutine, no comparisons in between
+		if r := w.startRetryFlush(); r != "" {
+			w.res.Harness = "retry scenario: " + r
+			return
+		}
+		t0 := time.Now()
+		if w.sc.Gate == "retry-flush-death" {
+			w.peerDies()
+		} else {
+			w.sv.Close()
+		}
+		for k := 0; k < 200 && !lcTornDown(w.sv); k++ {
+			lcEvents(w.dS)
+			w.dS.runLambda()
+		}
+		torn := time.Since(t0)
+		w.mu.Lock()
+		c := w.calls["fr"]
+		w.mu.Unlock()
+		early := c.finished() && torn > 95*time.Millisecond
+		select {
+		case <-c.done:
+		case <-time.After(lcWait):
+			w.violate("pending-call-hangs", "a Flush waiting in its queue-full retry loop does not return after the session was closed and torn down", 0)
+			return
+		}
+		w.checkPanics(0)
+		if early && w.unclassified() == 0 {
+			w.res.Harness = fmt.Sprintf("retry window missed: the teardown took %v, the retry loop had given up before", torn)
+			return
+		}
+		if c.res == "ok" {
+			w.violate("pending-call-succeeds", "a Flush waiting in its queue-full retry loop returned nil although the session was closed", 0)
+		}
+		w.res.Steps = 3
+		w.res.Conforming = true
 	case "open-register-after-close":
 		// client window of "a stream appears between Close() and the teardown lambda": OpenStream has passed its closed check
 		// and is parked before it registers the stream; Close() runs to its end; OpenStream goes on and registers
